@@ -577,8 +577,8 @@ func hexCase(cont int) eexecref.HexCase {
 	return eexecref.HexLower
 }
 
-var wsKinds = []string{" ", "\t", "\r", "\n", "\r\n"}
-var wsNames = []string{"SP", "TAB", "CR", "LF", "CRLF"}
+var wsKinds = []string{" ", "\t", "\r", "\n", "\r\n", "\x00", "\f"} // the six PostScript white-space characters and CR LF
+var wsNames = []string{"SP", "TAB", "CR", "LF", "CRLF", "NUL", "FF"}
 
 // insertion of white space before hex digit pos.
 type ins struct {
